@@ -5,8 +5,10 @@
   Modelling decisions (DESIGN.md §5 C10):
   * transaction refs are numbers (the 256-bit value); document hashes are opaque strings.
   * a DID document is a record of keyed lists; an `Entry` is (id, body) where body is the JSON rendering.
-  * the hash of a merged (conflicted) document is an injective rendering `"M:" ++ render doc` —
-    SHA-256 of json.Marshal in the code (contract: injective on what occurs).
+  * a document hash is an injective function of the document's content: `"H:" ++ render doc` stands for
+    SHA-256 of json.Marshal(doc) (contract: injective on what occurs). The driver names the payload hash of
+    every event the same way, so a merged document that is byte-identical to a published one has the same
+    hash in the model as in the code.
   * Go map iteration in `mergeDocuments` is an explicit argument `σ` (a reordering of each map-built list);
     the fields that the code sorts afterwards are the parameter `sortedFields` (regenerated fact).
   * the document shelf / txRef shelf are content addressed; the model looks a source transaction's document
@@ -18,7 +20,7 @@ namespace Nuts.C10
 
 /-- transaction refs (SHA-256 values) as numbers: `Ref.Compare` is big-endian byte order = numeric order. -/
 abbrev Ref := Nat
-/-- document hashes: payload hashes (opaque) or `"M:" ++ render` for merged documents -/
+/-- document hashes: `"H:" ++ render` (content addressed) -/
 abbrev Hash := String
 
 structure Entry where
@@ -171,7 +173,7 @@ def applyDocument (cfg : Cfg) (evs : List Event) (cur : Option Meta) (newDoc : D
     if unconsumed.isEmpty then .ok (newDoc, m1)
     else
       match unconsumed.foldl (mergeStep cfg evs) (.ok (newDoc, m1.sourceTx)) with
-      | .ok (d, src) => .ok (d, { m1 with sourceTx := src, hash := "M:" ++ d.render })
+      | .ok (d, src) => .ok (d, { m1 with sourceTx := src, hash := "H:" ++ d.render })
       | .err e => .err e
       | .panic s => .panic s
 
